@@ -337,8 +337,13 @@ func (m *Module) AssignGlobalIDs() error {
 				got := n.ID()
 				return errors.Errorf("invalid global ID, expected %s, got %s", enc.GlobalID(want), enc.GlobalID(got))
 			}
-			verifTrace("setid", n, n.ID(), id)
-			n.SetID(id)
+			// Write the ID only when it changes: concurrent printers read the IDs
+			// without holding the mutex, and an unconditional store of the value
+			// that is already there is a data race with those reads.
+			if n.ID() != id {
+				verifTrace("setid", n, n.ID(), id)
+				n.SetID(id)
+			}
 			id++
 		}
 		return nil
